@@ -451,7 +451,9 @@ func (c config) coq() string {
 	return fmt.Sprintf("(CFG %d %d %s %s %s %s)", c.Limit, c.Replace, vh.Bool(c.SendDH), vh.Bool(c.MaxCid), deny, vh.List(sizes))
 }
 
-const preamble = "From V Require Import model.M_C36.\nOpen Scope nat_scope."
+// The wide printing width keeps coqc from breaking the printed result list inside a
+// pair ("( 8%N, 106%N)"), which the driver's pattern for failing cases does not match.
+const preamble = "From V Require Import model.M_C36.\nOpen Scope nat_scope.\nSet Printing Width 1000000."
 
 // ---------- running one case ----------
 
